@@ -41,7 +41,7 @@ package eventlog
 //@ func (*EfiVarFSReader).ReadVariable
 //@   requires r != nil && len(name) >= 2
 //@   assigns nothing
-//@   modifies rdLeft
+//@   modifies rdLeft, osReadOKs
 //@   sweep[C07] index slice
 //@   atcall ReadFile requires[C16] confinedTo(r.Root, p0)
 //@   ensures[C16] true
